@@ -163,7 +163,7 @@ func (Prop) Generate(r *fw.Rand, tier string) []fw.Case {
 
 type metaClient struct{ m *metah.M }
 
-func (c metaClient) NodeID() uint64 { return 1 }
+func (c metaClient) NodeID() uint64                          { return 1 }
 func (c metaClient) Database(name string) *meta.DatabaseInfo { return c.m.F.Data().Database(name) }
 func (c metaClient) RetentionPolicy(database, policy string) (*meta.RetentionPolicyInfo, error) {
 	return c.m.F.Data().RetentionPolicy(database, policy)
